@@ -9,7 +9,7 @@ Definition c_rx_interval_ms_per_s : N := 2000.
 Definition c_tx_interval_ms_per_s : N := 1000.
 Definition c_frame_min_size : N := 4096.
 Definition c_min_read : N := 4096.
-Definition c_reply_queue_bound : N := 1.
+Definition c_reply_queue_bound : N := 2.
 Definition c_default_channel_max : N := 0.
 Definition c_default_frame_max : N := 0.
 Definition c_default_heartbeat : N := 60.
